@@ -231,11 +231,6 @@ var verifPDestName = []string{"int8", "int16", "int32", "int64", "int", "uint8",
 
 const verifPDests = 29
 
-func verifPRun(m map[string]any, v any) (err error, panicked bool) {
-	_, panicked = verifExpectPanic(func() { err = UnmarshalKey(m, v) })
-	return
-}
-
 // ---- oracles ----
 
 func verifPIll(name string) {
